@@ -1,0 +1,8 @@
+//go:build !verif
+
+package fs
+
+// verifPoint is the verification fault point; without the verif build tag it is a no-op.
+func verifPoint(kind, a, b string) error {
+	return nil
+}
